@@ -188,6 +188,7 @@ pub fn run_seq(trace: &Trace, skip: &BTreeSet<usize>, opts: &SeqOpts) -> SeqOutc
     let mut rep = RunReport::default();
     let mut results = Vec::with_capacity(ops.len());
     let mut out: Vec<Violation> = Vec::new();
+    crate::sut::reset_variants();
     let mut sut = Sut::build(cfg, &reg, &clock);
     if let Some(n) = trace.callback_faults.clone_panic_at {
         reg.arm_clone_panic(n as i64);
